@@ -501,6 +501,10 @@ def corpus(prop):
                                "stratum": "corpus"}),
         ("ctor-attributes", {"cls": "Sub", "tree": [[], [[], [], [], []], [[]]], "par": u, "junk": "ctor",
                              "names": ["x", "y", "shift", "mod", "depth", "x", "y", "n", "x"], "stratum": "corpus"}),
+        # K1 on the refuted family (Props C19_cousins_refuted_family): the witness under a chain of n unary nodes
+        ("K1-family-1", {"cls": "Node", "tree": [K1_TREE], "par": u, "stratum": "corpus"}),
+        ("K1-family-2", {"cls": "Node", "tree": [[K1_TREE]], "par": u, "stratum": "corpus"}),
+        ("K1-family-3", {"cls": "Node", "tree": [[[K1_TREE]]], "par": u, "stratum": "corpus"}),
         # known finding K5: every BinaryNode tree (children holds None slots) makes the call raise AttributeError
         ("K5-binary-single", {"cls": "BinaryNode", "btree": [None, None], "tree": [], "par": u, "stratum": "corpus"}),
         ("K5-binary-left-only", {"cls": "BinaryNode", "btree": [[None, None], None], "tree": [[]], "par": u,
@@ -1018,7 +1022,7 @@ def rule(prop):
             "16 % of the cases carry repeated names (along a path, across branches, the root's name below); strata verywide "
             "(fan-out 10-12) and cancel (x_offset / y_offset, also negative, that cancel preliminary coordinates, mods or "
             "levels exactly); the harness also fails a case when the call returns a value or changes structure, names or a "
-            "user attribute; non-trivial = >= 4 nodes, some fan-out >= 2 and depth >= 3; distinct by canonical JSON hash")
+            "user attribute; about 76 % of the generated trees satisfy cousin_safe (the class of C19_cousins_safe); non-trivial = >= 4 nodes, some fan-out >= 2 and depth >= 3; distinct by canonical JSON hash")
 
 
 def sample(prop, case, obs):
@@ -1049,7 +1053,12 @@ def partial_clauses(prop):
             "along right-most children-with-children reaches a's deepest level and the walk from b along left-most "
             "children-with-children reaches b's deepest level; C19_cousins_partial2 additionally allows nodes with any "
             "number of non-leaf children all of whose grandchildren are leaves; C19_cousins_failure_shape is the "
-            "contrapositive (every cousin failure happens on a tree outside that guard)",
+            "contrapositive (every cousin failure happens on a tree outside that guard); C19_cousins_safe is the widest "
+            "class proved: at every node any two children with children are both flat (only leaf children) or the left "
+            "one is the first child and the facing walks are complete (92 % of the ordered trees with <= 9 nodes, about "
+            "76 % of the generated trees); C19_cousins_refuted_family refutes the clause on infinitely many trees (the "
+            "witness under n unary nodes, n = 1, 2, 3 replayed in the corpus); the exact boundary (which unsafe trees "
+            "really fail) stays open: about 0.5 % of the generated trees fail, about 24 % are outside cousin_safe",
             "NOT EXERCISED / NOT COMPARED (accepted): (0) subclasses whose instances can be falsy (__len__ = number of "
             "children, __bool__): the unchanged library collapses the layout (preorder_iter and `if node.left_sibling` "
             "skip falsy nodes) - reported, not generated; a value-equality subclass whose ONLY deepest nodes are named "
